@@ -51,6 +51,7 @@ def f_rep(k): return lambda x: [x + j for j in range(x % k)]
 def f_none(m): return lambda x: None if x % m == 0 else x
 def f_float(x): return x * 0.5
 def p_mod(m, r): return lambda x: x % m != r
+def p_mod_int(m, r): return lambda x: (x - r) % m          # the same condition as a truthy / falsy NUMBER (1, 2, 0), not a bool
 def p_gt(c): return lambda x: x > c
 def p_notnone(x): return x is not None
 def p_false(x): return False
@@ -203,7 +204,8 @@ simple('map_rep', INTLIKE, 'list', lambda n, e: rs.ops.map(f_rep(n[1])), lambda 
 simple('map_none', INTLIKE, 'optint', lambda n, e: rs.ops.map(f_none(n[1])), lambda n, c: M.Map(f_none(n[1])))
 simple('map_float', INTLIKE, 'float', lambda n, e: rs.ops.map(f_float), lambda n, c: M.Map(f_float))
 simple('starmap_add', ('pair',), 'int', lambda n, e: rs.ops.starmap(lambda a, b: a + b), lambda n, c: M.Map(lambda t: t[0] + t[1]))
-simple('filter_mod', INTLIKE, '=', lambda n, e: rs.ops.filter(p_mod(n[1], n[2])), lambda n, c: M.Filter(p_mod(n[1], n[2])))
+simple('filter_mod', INTLIKE, '=', lambda n, e: rs.ops.filter(p_mod_int(n[1], n[2]) if len(n) > 3 and n[3] == 'int' else p_mod(n[1], n[2])),
+       lambda n, c: M.Filter(p_mod(n[1], n[2])))
 simple('filter_gt', INTLIKE, '=', lambda n, e: rs.ops.filter(p_gt(n[1])), lambda n, c: M.Filter(p_gt(n[1])))
 simple('filter_notnone', ('optint',), 'int', lambda n, e: rs.ops.filter(p_notnone), lambda n, c: M.Filter(p_notnone))
 simple('filter_false', '*', '=', lambda n, e: rs.ops.filter(p_false), lambda n, c: M.Filter(p_false))
